@@ -46,4 +46,17 @@ def parseComponent (s : Runes) : Option (Runes × Runes) :=
 def parseDN (s : Runes) : Option (List (Runes × Runes)) :=
   if s.isEmpty then some [] else (splitComponents s []).mapM parseComponent
 
+/-- split at one unescaped separator character only -/
+def splitAt (sep : Nat) : Runes → Runes → List Runes
+  | [], cur => [cur.reverse]
+  | 92 :: c :: rest, cur => splitAt sep rest (c :: 92 :: cur)
+  | c :: rest, cur =>
+    if c = sep then cur.reverse :: splitAt sep rest [] else splitAt sep rest (c :: cur)
+
+/-- the STRUCTURED reading (§2.1, §2.2): RDNs are separated by unescaped ',', the attribute type-and-values of a
+    multi-valued RDN by unescaped '+' -/
+def parseRDNs (s : Runes) : Option (List (List (Runes × Runes))) :=
+  if s.isEmpty then some []
+  else (splitAt 44 s []).mapM fun rdn => (splitAt 43 rdn []).mapM parseComponent
+
 end WhatIs.Spec.Rfc4514
